@@ -263,13 +263,9 @@ class Concat(Expr):
                 for frame, cols in zip(self._frames, columns_frame)
                 if len(cols) > 0 or not can_drop
             ]
+            # subclasses (StackPartition) have a different parameter list
             result = type(self)(
-                self.join,
-                self.ignore_order,
-                self._kwargs,
-                self.axis,
-                self.ignore_unknown_divisions,
-                self.interleave_partitions,
+                *[self.operand(param) for param in self._parameters],
                 *frames,
             )
             if result.columns == _convert_to_list(parent.operand("columns")):
